@@ -1148,4 +1148,112 @@ theorem step_finv (s s' : St) (a : Act) (h : step s a = some s') (hi : FInv s) :
         | (cases h; intro hf'; exact absurd hf' hf)
         | cases h
 
+/-! ### delivery is always possible (C02 liveness, as possibility) -/
+
+
+theorem run_append (s : St) (a b : List Act) :
+    run s (a ++ b) = match run s a with | some s' => run s' b | none => none := by
+  induction a generalizing s with
+  | nil => simp [run]
+  | cons x xs ih =>
+    simp only [List.cons_append, run]
+    cases step s x with
+    | none => rfl
+    | some s1 => exact ih s1
+
+theorem dedupSorted_mem : ∀ (l : List Nat) (c : Nat), c ∈ dedupSorted l ↔ c ∈ l
+  | [], _ => by simp [dedupSorted]
+  | [_], _ => by simp [dedupSorted]
+  | x :: y :: r, c => by
+    have ih := dedupSorted_mem (y :: r) c
+    simp only [dedupSorted]
+    split
+    · rename_i hxy; subst hxy
+      rw [ih]; simp
+    · simp only [List.mem_cons] at ih ⊢
+      rw [ih]
+
+theorem newLeft_mem' (l : List Nat) (c : Nat) : c ∈ newLeft l ↔ c ∈ l := by
+  unfold newLeft
+  rw [dedupSorted_mem]
+  exact (List.mergeSort_perm l _).mem_iff
+
+/-- what a well-behaved upstream lets the client do with one leftover: take it, transmit it, queue it for
+acknowledgement, read its ACK -/
+def deliverOne : List Act := [.takeLeft, .sendOk, .pushAck, .ackRecv, .ackOk none]
+
+def fresh (conn : Nat) : Sess := { conn := conn }
+
+theorem deliver_one (s : St) (conn c : Nat) (rest : List Nat) (hs : s.sess = some (fresh conn)) (hl : s.left = c :: rest) :
+    run s deliverOne = some { s with left := rest, confirmed := s.confirmed ++ [c], hist := s.hist ++ [.sendOk conn c] ++ [.ack conn none, .consumed c] } := by
+  obtain ⟨queue, left, sess, confirmed, handed, taken, stop, finished, nextConn, hist⟩ := s
+  simp only at hs hl
+  subst hs hl
+  simp [deliverOne, run, step, fresh, ackCap]
+
+theorem deliver_loop : ∀ (L : List Nat) (s : St) (conn : Nat), s.sess = some (fresh conn) → s.left = L →
+    ∃ s', run s (L.flatMap (fun _ => deliverOne)) = some s' ∧ s'.sess = some (fresh conn) ∧ s'.left = [] ∧
+      s'.confirmed = s.confirmed ++ L ∧ s'.finished = s.finished ∧ s'.queue = s.queue ∧ s'.taken = s.taken ∧
+      s'.handed = s.handed
+  | [], s, conn, hs, hl => ⟨s, by simp [run], hs, hl, by simp, rfl, rfl, rfl, rfl⟩
+  | c :: rest, s, conn, hs, hl => by
+    simp only [List.flatMap_cons, run_append, deliver_one s conn c rest hs hl]
+    obtain ⟨s', a, b, c', d, e, f, g, h⟩ := deliver_loop rest { s with left := rest, confirmed := s.confirmed ++ [c], hist := s.hist ++ [.sendOk conn c] ++ [.ack conn none, .consumed c] } conn hs rfl
+    exact ⟨s', a, b, c', by rw [d]; simp, e, f, g, h⟩
+
+
+/-- the actions that end a session (the same plan as C18's shutdown): enter `collectLeftovers`, end the
+acknowledger, merge what was not acknowledged -/
+def closeSess (x : Sess) : List Act :=
+  (if x.collecting.isNone then [Act.beginCollect] else []) ++
+  (if x.ackEnded then [] else if x.ackCur.isSome then [Act.ackErr] else [Act.escalate, Act.ackAbort]) ++
+  [Act.finishCollect]
+
+theorem close_session (s : St) (x : Sess) (hs : s.sess = some x) (hok : SessOK s x) :
+    ∃ s', run s (closeSess x) = some s' ∧ s'.sess = none ∧ (∀ c, c ∈ s'.left ↔ c ∈ inflight s) ∧
+      s'.confirmed = s.confirmed ∧ s'.finished = s.finished ∧ s'.queue = s.queue ∧ s'.taken = s.taken ∧
+      s'.handed = s.handed := by
+  obtain ⟨queue, left, sess, confirmed, handed, taken, stop, finished, nextConn, hist⟩ := s
+  simp only at hs
+  subst hs
+  obtain ⟨conn, normal, lastC, sentOk, ackChan, chanClosed, ackCur, pending, ackEnded, abort, connClosed, collecting⟩ := x
+  obtain ⟨_, hleft⟩ := hok
+  simp only at hleft
+  cases collecting with
+  | some P =>
+    have hl : left = [] := hleft (Or.inr rfl)
+    subst hl
+    cases ackEnded <;> cases ackCur <;>
+      simp [closeSess, run, step, inflight, newLeft_mem'] <;> (intro c; cases lastC <;> simp <;> grind)
+  | none =>
+    cases normal with
+    | true =>
+      have hl : left = [] := hleft (Or.inl rfl)
+      subst hl
+      cases ackEnded <;> cases ackCur <;>
+        simp [closeSess, run, step, inflight, newLeft_mem'] <;> (intro c; cases lastC <;> simp <;> grind)
+    | false =>
+      cases ackEnded <;> cases ackCur <;>
+        simp [closeSess, run, step, inflight, newLeft_mem'] <;> (intro c; cases lastC <;> simp <;> grind)
+
+
+theorem after_connect (t : St) (hn : t.sess = none) (hf : t.finished = false) :
+    ∃ s', run t ([Act.connectOk] ++ (t.left.flatMap (fun _ => deliverOne) ++ [Act.recoveryDone])) = some s' ∧
+      s'.confirmed = t.confirmed ++ t.left ∧ inflight s' = [] ∧ s'.queue = t.queue ∧ s'.handed = t.handed ∧
+      s'.taken = t.taken ∧ s'.finished = false ∧ ∃ x, s'.sess = some x ∧ x.normal = true := by
+  have h1 : run t [Act.connectOk] = some { t with sess := some (fresh t.nextConn), nextConn := t.nextConn + 1 } := by
+    simp [run, step, hn, hf, fresh]
+  obtain ⟨s2, a, b, c, d, e, f, g, h⟩ := deliver_loop t.left { t with sess := some (fresh t.nextConn), nextConn := t.nextConn + 1 } t.nextConn rfl rfl
+  have h3 : run s2 [Act.recoveryDone] = some { s2 with sess := some { fresh t.nextConn with normal := true } } := by
+    simp [run, step, b, c, fresh]
+  refine ⟨{ s2 with sess := some { fresh t.nextConn with normal := true } }, ?_, ?_, ?_, ?_, ?_, ?_, ?_, ?_⟩
+  · rw [run_append, h1]; simp only; rw [run_append, a]; simp only; exact h3
+  · exact d
+  · simp [inflight, c, fresh]
+  · exact f
+  · exact h
+  · exact g
+  · simp only; rw [e]; exact hf
+  · exact ⟨_, rfl, rfl⟩
+
 end C02
